@@ -3,8 +3,8 @@
  * made of SHAPE (1 or 2) components of up to LEN fully symbolic bytes each
  * (no NUL, no newline - the property excludes it), symlink target up to 3
  * symbolic bytes, unpack root up to 2; stdout is the capture contract of
- * capture.h; sqfs_tree_node_get_path under its C06 contract, the real
- * canonicalize_name and is_filename_sane.
+ * capture.h; sqfs_tree_node_get_path and canonicalize_name under their
+ * C06 / C18 contracts, the real is_filename_sane.
  *
  *   KIND 0 sock  1 slink  2 pipe  3 file  4 file + --unpack-root
  *        5 char/block device  6 dir
@@ -49,6 +49,8 @@ const char *g_sane_base;
 
 #define PATHMAX ((LEN + 1) * SHAPE + 2)
 
+static char *g_last_path;
+
 /* sqfs_tree_node_get_path under the contract established by C06
  * (C06.get_path.components / fail_null / complete) */
 int sqfs_tree_node_get_path(const sqfs_tree_node_t *node, char **out)
@@ -75,8 +77,25 @@ int sqfs_tree_node_get_path(const sqfs_tree_node_t *node, char **out)
 	}
 	str[o] = '\0';
 	*out = str;
+	g_last_path = str;
 	return 0;
 }
+
+#ifndef VERIF_REPLAY
+/* glibc's device number split (sys/sysmacros.h), which goto-cc sees only as
+ * declarations */
+unsigned int gnu_dev_major(dev_t dev)
+{
+	return (unsigned int)(((dev & 0x00000000000fff00ULL) >> 8) |
+			      ((dev & 0xfffff00000000000ULL) >> 32));
+}
+
+unsigned int gnu_dev_minor(dev_t dev)
+{
+	return (unsigned int)((dev & 0x00000000000000ffULL) |
+			      ((dev & 0x00000ffffff00000ULL) >> 12));
+}
+#endif
 
 void sqfs_perror(const char *file, const char *action, int error_code)
 {
@@ -89,8 +108,24 @@ void sqfs_free(void *p)
 	free(p);
 }
 
+/* canonicalize_name under its C18 contract, specialised to what get_path
+ * delivers (C06.get_path.canon_is_shift): "/" c1 "/" c2 ... with acceptable
+ * components is accepted and loses exactly its leading slash */
+int canonicalize_name(char *filename)
+{
+	size_t i;
+
+	VERIF_ASSERT(filename != NULL && filename == g_last_path,
+		     "C16.canon.pre");
+	for (i = 0; i + 1 < PATHMAX; ++i) {
+		filename[i] = filename[i + 1];
+		if (filename[i] == '\0')
+			break;
+	}
+	return 0;
+}
+
 #include "lib/util/src/filename_sane.c"
-#include "lib/util/src/canonicalize_name.c"
 #include "bin/rdsquashfs/src/describe.c"
 
 static const sqfs_u16 kind_mode[7] = {
@@ -120,6 +155,7 @@ void harness(void)
 	size_t o = 0, i, at = 0, qn, en = 0;
 	bool name_ok, no_nl = true, is_blk = false;
 	sqfs_u16 perm;
+	unsigned nb;
 	int j, ret;
 
 #ifndef VERIF_REPLAY
@@ -179,6 +215,14 @@ void harness(void)
 	}
 	g_cap[g_cap_n] = '\0';
 
+#if KIND == 6
+	/* a directory without a name is the image root: it has no line */
+	if (TN(SHAPE)->name[0] == '\0') {
+		VERIF_ASSERT(g_cap_n == 0, "C16.line.shape");
+		return;
+	}
+#endif
+
 	switch (KIND) {
 	case 0: kw = "sock "; break;
 	case 1: kw = "slink "; break;
@@ -205,9 +249,11 @@ void harness(void)
 	at += qn;
 
 	VERIF_ASSERT(field_eq(g_cap, at, " 07 7 7", 7), "C16.line.shape");
-	VERIF_ASSERT(g_nnums >= 3 && g_nums[0] == perm &&
-		     g_nums[1] == NODE(SHAPE)->uid &&
-		     g_nums[2] == NODE(SHAPE)->gid, "C16.line.shape");
+	/* devices: the triple is formatted first (sprintf), then the line */
+	nb = KIND == 5 ? 2 : 0;
+	VERIF_ASSERT(g_nnums == nb + 3 && g_nums[nb] == perm &&
+		     g_nums[nb + 1] == NODE(SHAPE)->uid &&
+		     g_nums[nb + 2] == NODE(SHAPE)->gid, "C16.line.shape");
 	at += 7;
 
 #if KIND == 1 || KIND == 4
@@ -232,7 +278,6 @@ void harness(void)
 		}
 		VERIF_COVER(extra_ok);
 	}
-	VERIF_ASSERT(g_nnums == 3, "C16.line.shape");
 #elif KIND == 5
 	{
 		sqfs_u32 devno = (TI(SHAPE)->i.base.type == SQFS_INODE_EXT_BDEV ||
@@ -242,12 +287,11 @@ void harness(void)
 
 		VERIF_ASSERT(field_eq(g_cap, at, is_blk ? " b 7 7\n" : " c 7 7\n", 8),
 			     "C16.line.shape");
-		VERIF_ASSERT(g_nnums == 5 && g_nums[3] == major(devno) &&
-			     g_nums[4] == minor(devno), "C16.line.shape");
+		VERIF_ASSERT(g_nums[0] == major(devno) &&
+			     g_nums[1] == minor(devno), "C16.line.shape");
 	}
 #else
 	VERIF_ASSERT(field_eq(g_cap, at, "\n", 2), "C16.line.shape");
-	VERIF_ASSERT(g_nnums == 3, "C16.line.shape");
 #endif
 	(void)en;
 }
